@@ -110,3 +110,20 @@ void h_connect(void)
   TcpEngine_doConnect_clientTls(e, s, fd, cr);
   IORA_CANARY("h_connect: returns");
 }
+
+#ifdef IORA_SEARCH
+/* SEARCH: bounded/plain run of the same clauses S2 and S1 over an arbitrary configuration (the functions are loop-free, so this is the
+ * same decision); its only purpose is to trigger REPLAY, whose adapter needs no input: it runs the real engine (see replay.cpp). */
+void h_search(void)
+{
+  TcpEngine e; Session s; SSL ssl; ConnectReq cr; int fd;
+  IORA_TRUE = 1;
+  e._alpnPref.n = 0;
+  bool ok = TcpEngine_initTls(&e);
+  __CPROVER_assert(!(ok && e._config.serverTls.enabled && e._config.serverTls.defaultMode == TlsMode_Server && e._config.serverTls.verifyPeer)
+                   || (G_ctx_srv.verify_mode & SSL_VERIFY_FAIL_IF_NO_PEER_CERT) != 0, "S2 server verifyPeer demands a client certificate");
+  ssl.host_set = 0; ssl.sni_set = 0; s.ssl = &ssl; s.hsTimeoutScheduled = 0;
+  TcpEngine_doConnect_clientTls(&e, &s, fd, cr);
+  __CPROVER_assert(!e._config.clientTls.verifyPeer || ssl.host_set, "S1 verifying client gives the expected host name to OpenSSL");
+}
+#endif
